@@ -203,7 +203,7 @@ class Snap:
 
     def edges(self):
         e = {}
-        for x, c in self.counts.items():
+        for x in self.counts:
             h = self.holders(x)
             if len(h) == 2:
                 e.setdefault((h[0], h[1]), []).append(x)
@@ -1495,7 +1495,9 @@ def _exponents(dt):
               "canonize_around / gauge_all_canonize / gauge_all_simple / gauge_all_random / gauge_all(bp) / gauge_local / "
               "insert_gauge (condition number <= 4) / balance_bonds / equalize_norms / strip_exponent+distribute_exponent / "
               "fuse_multibonds / squeeze / compress_between, compress_all, compress_all_tree, compress_all_1d, "
-              "compress_all_simple with cutoff=0 and max_bond None or >= the bond; options drawn at random; rtol 1e-8 "
+              "compress_all_simple with cutoff=0 and max_bond None or >= the bond; options drawn at random (non-unitary "
+              "random gauges and belief-propagation gauging in double precision only; canonize_between prefers tensors "
+              "already flagged isometric); rtol 1e-8 "
               "(1e-6 for iterative / inverse based gauges) double, 1e-3 (5e-3) single, of the sum of |terms|; isometry "
               "defect <= 1e-7 (5e-3 single)")
 def gauging(cx):
@@ -1531,7 +1533,8 @@ def gauging(cx):
               "<= 4 (thorough <= 8) of rank_simplify / diagonal_reduce / antidiag_gauge / column_reduce / split_simplify "
               "/ pair_simplify / loop_simplify / full_simplify (random letter sequences over ADCRSLP) / hyperinds_resolve "
               "(dense, mps, tree; sorters) / compress_simplify(atol=1e-12) and, whenever the current network is plain, "
-              "the gauging rewrites; equalize_norms {False, True, 1.0}; in place or not")
+              "the gauging rewrites; equalize_norms {False, True, 1.0}; in place or not; networks that are identically "
+              "zero only get rewrites that do not divide by a norm")
 def simplification(cx):
     import quimb.tensor as qtn
 
